@@ -5,10 +5,10 @@ from .common import hexs, parse_q
 from . import lightgen as L
 
 RULE = ("structured programs over all opcodes (set/fade colour, gray, black, white, channel colours, sleep, wait-until, "
-        "reset-clock, loops nested 0..5 with counts {0,1,2,3,255}, forward/backward/out-of-range jumps, triggered jumps, pyro, "
+        "reset-clock, loops nested 0..4 (the supported depth) with counts {0,1,2,3,255}, forward/backward/out-of-range jumps, triggered jumps, pyro, "
         "zero durations, unknown opcodes, truncated arguments, end markers), every loop iteration and jump cycle consuming "
         "time; fresh-player queries (colour, pyro, seek) at multiples of 20 ms, +-1 around them, random instants, 2^24-1; "
-        "each program is run through the polling model ('light') and the event-driven specification ('lightspec'), plus the "
+        "programs whose live part lies beyond byte 255 / 65535, one player queried repeatedly; each program is run through the polling model ('light') and the event-driven specification ('lightspec'), plus the "
         "three light programs of the repository fixtures. Non-trivial = program of >= 2 commands with a colour answer that is not black "
         "or a pyro/seek answer.")
 EXPLANATION = ("pyro/ended exact; colour exact outside fades, inside a fade exact-1-2^-12 < channel <= exact+2^-12 (binary32 "
@@ -34,8 +34,20 @@ def cases(rng, tier):
         q = ",".join("c%d" % t for t in ts) + "," + ",".join("s%d" % t for t in ts[:4])
         yield ("light f %s %s" % (hexs(prog), q), "fixture")
         yield ("lightspec %s %s" % (hexs(prog), q), "fixture-spec")
+    for label, prog in L.special_programs(rng, tier == "thorough", deep=False):
+        ts = L.probe_times(rng, 14, cyclic=True)
+        q = ",".join(rng.choice("cccps") + str(t) for t in ts)
+        yield ("light f %s %s" % (hexs(prog), q), label)
+        yield ("lightspec %s %s" % (hexs(prog), q), label + "-spec")
+    # one player queried repeatedly (the answers "reported" also after other queries): forwards, backwards, at command
+    # starts; the history-mode model is the polling model threaded the same way (C09 proves it equal to fresh answers)
+    for i in range(n // 8):
+        prog = L.rand_program(rng, maxdepth_cap=4)
+        ts = L.probe_times(rng, 12, cyclic=L.has_cycle(prog))
+        seq = [rng.choice("cccps") + str(rng.choice(ts)) for _ in range(16)]
+        yield ("light h %s %s" % (hexs(prog), ",".join(seq)), "history")
     for i in range(n):
-        prog = L.rand_program(rng)
+        prog = L.rand_program(rng, maxdepth_cap=4)
         ts = L.probe_times(rng, 10, cyclic=L.has_cycle(prog))
         q = ",".join(rng.choice("cccps") + str(t) for t in ts)
         yield ("light f %s %s" % (hexs(prog), q), "gen")
